@@ -200,16 +200,20 @@ def run(ctx, rep):
         mk2 = [s for s in walk_nodes(pco.node.body, ast.Assign) if utext(s.targets[0]) == "market"]
         good = good and len(mk2) == 1 and utext(mk2[0].value) == "markets.markets[order.market_id]"
     rep.check(good, "R4", key(pco, None, "a complete order leaves the live list of its own market, once"), pco)
-    rp = [n for n in cfg.live_nodes() if n.kind == "cond" and utext(n.exprs[0]) == ct("order.bet_id != current_order.bet_id")]
-    good = len(rp) == 1 and ("order.bet_id", True) in [(utext(g.exprs[0]), pol) for g, pol in cfg.guards(rp[0].id)]
+    from sa.kinds import guard_pairs, gp
+    rl = [n for n in cfg.live_nodes() if n.kind == "stmt" and isinstance(n.ast, ast.Assign) and utext(n.ast.targets[0]) == "order"
+          and call_name(n.ast.value) == "get_order_from_bet_id"]
+    good = len(rl) == 1 and bool(pcall) and \
+        {k.arg: utext(k.value) for k in rl[0].ast.value.keywords} == {"market_id": "current_order.market_id", "bet_id": "current_order.bet_id"}
     if good:
-        t = [m for l, m in rp[0].succ if l == "T"][0]
-        n = cfg.nodes[t]
-        good = n.kind == "stmt" and isinstance(n.ast, ast.Assign) and utext(n.ast.targets[0]) == "order" and \
-            call_name(n.ast.value) == "get_order_from_bet_id" and \
-            {k.arg: utext(k.value) for k in n.ast.value.keywords} == {"market_id": "current_order.market_id", "bet_id": "current_order.bet_id"}
-        first = [g for g, pol in cfg.guards(rp[0].id) if utext(g.exprs[0]) == "order.bet_id"][0]
-        good = good and bool(pcall) and cfg.dominates(first.id, pcall[0][0].id)
+        gs = guard_pairs(cfg, rl[0].id)
+        differs = {"order.bet_id": True, "order.bet_id == current_order.bet_id": False}
+        # looked up exactly when the order has a bet id and it is not the update's; then nothing reaches the
+        # status mapping with the order found by reference
+        good = gp("order.bet_id") in gs and gp("order.bet_id != current_order.bet_id") in gs and \
+            cfg.all_paths_pass(cfg.entry, pcall[0][0].id, [rl[0].id], cfg.assume(differs))
+        others = {t for t, pol in gs} - {"order.bet_id", gp("order.bet_id == current_order.bet_id")[0], "order is None"}
+        good = good and not [t for t in others if "bet_id" in t]
     rep.check(good, "R4", key(pco, None, "an update for another bet id of the same reference is routed through the bet-id index"), pco,
               None, "a replace keeps the customer reference and issues a new bet id")
 
